@@ -1,8 +1,8 @@
 package prop
 
 import (
-	"encoding/binary"
 	"crypto/sha256"
+	"encoding/binary"
 	"encoding/hex"
 	"fmt"
 	"strings"
@@ -21,10 +21,10 @@ import (
 func init() {
 	Register(&Spec{
 		ID: "C13", Level: "exploration",
-		Rule: "cases = chains of the all-modules director (all ten workloads incl. their parameter changes, same-block create/claim/adjust/destroy/pause/kill coincidences, farm pools destroyed in the block they fall due and then staked into and adjusted, the farm queue read after every transaction) with block times advancing by arbitrary positive steps (1 s .. days) plus bursts that put many hash-locked contracts and random requests due at one height; the application's own begin/end blockers run inside recover() wrappers; after every block the raw time-queue families (htlc expiry queue, farm active-pool queue, service new-batch/expired-batch queues with their height markers and active-request markers, random request queue) are walked against the object stores. non-trivial = a block whose blockers ran and whose queues were walked with due items present; distinct = distinct (queue family, #items due class, coincidence kinds in the block, time-step class)",
-		Assume: []string{"exactly-once processing at the due height is judged item by item by the module properties' own models (C03, C06, C08, C18); C13 adds the cross-module chain, the abort recorder and the queue-object bijection", "third-party coin transfers into module escrow accounts are not generated on shared chains"},
-		Cases:  func(t string) int { return tierN(t, 6, 48) },
-		Run:    runBlockProc,
+		Rule:          "cases = chains of the all-modules director (all ten workloads incl. their parameter changes, same-block create/claim/adjust/destroy/pause/kill coincidences, farm pools destroyed in the block they fall due and then staked into and adjusted, the farm queue read after every transaction); the last four cases of each tier run the dedicated service / htlc / farm / random directors and keep only their queue-against-object and due-height relations with block times advancing by arbitrary positive steps (1 s .. days) plus bursts that put many hash-locked contracts and random requests due at one height; the application's own begin/end blockers run inside recover() wrappers; after every block the raw time-queue families (htlc expiry queue, farm active-pool queue, service new-batch/expired-batch queues with their height markers and active-request markers, random request queue) are walked against the object stores. non-trivial = a block whose blockers ran and whose queues were walked with due items present; distinct = distinct (queue family, #items due class, coincidence kinds in the block, time-step class)",
+		Assume:        []string{"exactly-once processing at the due height is judged item by item by the module properties' own models (C03, C06, C08, C18); C13 adds the cross-module chain, the abort recorder and the queue-object bijection", "third-party coin transfers into module escrow accounts are not generated on shared chains"},
+		Cases:         func(t string) int { return tierN(t, 6, 48) + bpDedicated },
+		Run:           runBlockProc,
 		RequireTotals: aliveTotals(map[string]int64{"farm-pool-destroyed-in-the-block-it-falls-due": 1}),
 	})
 }
@@ -55,7 +55,74 @@ func randomQueueCheck(r *rig.Rig, ctx sdk.Context) []string {
 
 type bpTag struct{ Kind string }
 
+// bpDedicated: the last four cases of every tier run the dedicated directors of the service, htlc, farm and random
+// modules (their scripted histories - kills, pauses and restarts at chosen batch phases, coincident expiries, re-scheduled
+// pools - do not occur on the all-modules chain) and keep, of everything those directors judge, only the relations of
+// this property: queues against objects, and objects handled at their due height exactly once.
+const bpDedicated = 4
+
+func bpKeep(prefixes map[string]string) func(string) (string, bool) {
+	return func(key string) (string, bool) {
+		for p, to := range prefixes {
+			if strings.HasPrefix(key, p) {
+				return to + strings.TrimPrefix(key, p), true
+			}
+		}
+		return "", false
+	}
+}
+
+func runBlockProcDedicated(run *ev.Run, c, k int) {
+	run.Count("dedicated-director-cases", 1)
+	switch k {
+	case 0:
+		run.KeyMap = bpKeep(map[string]string{
+			"C08:service:queue:": "C13:service:queue:",
+			"C08:service:request-without-outcome-past-expiration":  "C13:service:request-without-outcome-past-expiration",
+			"C08:service:request-not-expired-at-expiration-height": "C13:service:request-not-expired-at-expiration-height",
+			"C08:service:batch-issued-while-not-running":           "C13:service:batch-issued-while-not-running",
+		})
+		run.Class("dedicated-director", "service")
+		runService(run, c, "C08")
+	case 1:
+		run.KeyMap = bpKeep(map[string]string{
+			"C03:htlc:expiry-queue:":                         "C13:htlc:expiry-queue:",
+			"C03:htlc:open-past-expiry":                      "C13:htlc:open-past-expiry",
+			"C03:htlc:block-begin:due-contract-not-refunded": "C13:htlc:due-contract-not-refunded",
+		})
+		run.Class("dedicated-director", "htlc")
+		runHTLC(run, c, "C03")
+	case 2:
+		run.KeyMap = bpKeep(map[string]string{
+			"C06:farm:expiry-queue-inconsistent":                "C13:farm:expiry-queue-inconsistent",
+			"C06:farm:pool-over-without-refund":                 "C13:farm:pool-over-without-refund",
+			"C06:farm:destroyed-pool-still-in-the-expiry-queue": "C13:farm:destroyed-pool-keeps-its-queue-entry",
+			"C06:farm:refund-more-than-once":                    "C13:farm:refund-more-than-once",
+		})
+		run.Class("dedicated-director", "farm")
+		runFarm(run, c, "C06")
+	default:
+		run.KeyMap = bpKeep(map[string]string{
+			"C18:random:fulfilled-request-still-queued":           "C13:random:fulfilled-request-still-queued",
+			"C18:random:not-fulfilled-in-begin-block":             "C13:random:not-fulfilled-in-begin-block",
+			"C18:random:not-fulfilled-in-block-after-due-height":  "C13:random:not-fulfilled-in-block-after-due-height",
+			"C18:random:pending-request-not-queued-at-due-height": "C13:random:pending-request-not-queued-at-due-height",
+			"C18:random:stale-queue-entry":                        "C13:random:stale-queue-entry",
+			"C18:random:oracle-request-still-queued-after-due":    "C13:random:oracle-request-still-queued-after-due",
+			"C18:random:oracle-request-record-not-removed":        "C13:random:oracle-request-record-not-removed",
+			"C18:random:fulfilled-at-wrong-height":                "C13:random:fulfilled-at-wrong-height",
+			"C18:random:fulfilled-early":                          "C13:random:fulfilled-early",
+		})
+		run.Class("dedicated-director", "random")
+		runRandom(run, c)
+	}
+}
+
 func runBlockProc(run *ev.Run, c int) {
+	if n := tierN(run.Tier, 6, 48); c >= n {
+		runBlockProcDedicated(run, c, c-n)
+		return
+	}
 	seed := fmt.Sprintf("bp-%d-%d", run.Seed, c)
 	chain := newAllChainAt(run, seed, nil, time.Time{}, boundaryHeight(c))
 	run.Class("initial-height", fmt.Sprint(boundaryHeight(c)))
